@@ -52,11 +52,17 @@ class RefStream:
 
 
 def run(seed0, seed1, xs, ys, us):
-    if rt.MODE == "symbolic":
-        pool = rngstub.install(us)
-    streams = [MersenneTwister(seed0), MersenneTwister(seed1)]
     if rt.MODE != "symbolic":
-        return replay_protocol(streams, seed0, seed1, xs, ys)
+        # replay 1: the real wrapper on the real Mersenne Twister
+        import pydsol.core.streams as _st
+        import random as _random
+        _st.Random = _random.Random
+        if not replay_protocol([MersenneTwister(seed0), MersenneTwister(seed1)], seed0, seed1, xs, ys):
+            return False
+        # replay 2: the real wrapper on a scripted generator that delivers the counterexample's uniforms
+        # (extreme values such as the largest double below 1 have probability 2^-53 on the real generator)
+    pool = rngstub.install(us)
+    streams = [MersenneTwister(seed0), MersenneTwister(seed1)]
     refs = [RefStream(seed0), RefStream(seed1)]
     saved = [None, None]
     for n, op in enumerate(SCRIPT):
@@ -88,7 +94,9 @@ def run(seed0, seed1, xs, ys, us):
             ref.seed, ref.key, ref.idx = xs[n], (xs[n] if xs[n] >= 0 else -xs[n]), 0
         elif o == "R":
             st.reset()
-            ref.idx = 0
+            # reset replays the sequence of the CURRENT seed, also when the generator state was restored
+            # from a checkpoint taken under an earlier seed
+            ref.key, ref.idx = (ref.seed if ref.seed >= 0 else -ref.seed), 0
         elif o == "V":
             saved[k] = st.save_state()
             ref.saved = (ref.key, ref.idx)
